@@ -40,7 +40,12 @@ func c09GenConc(r *core.Rand, sc *core.Scenario) {
 		if r.P(3, 5) {
 			// op: 0 get, 1 set, 2 delete
 			op := r.Weighted([]int{5, 5, 2})
-			a := core.Action{K: "c.inv", S: r.Intn(4), A: []int{op, r.Intn(2), r.Intn(6), r.Intn(100000), r.Intn(3), r.Intn(1 << 20), r.Intn(1 << 20)}}
+			id := 0
+			if r.P(1, 4) {
+				id = 1
+			}
+			// sets stop once or twice in two of three cases
+			a := core.Action{K: "c.inv", S: r.Intn(4), A: []int{op, id, r.Intn(6), r.Intn(100000), []int{0, 1, 1, 2, 1, 2}[r.Intn(6)], r.Intn(1 << 20), r.Intn(1 << 20)}}
 			sc.Actions = append(sc.Actions, a)
 			nops--
 		} else {
@@ -452,8 +457,9 @@ func (x *c09Conc) judgeReturn(o *c09Op) {
 				o.nf = true
 			} else {
 				x.fail("conc-error", "get failed", "op%d get(id%d) failed without an injected fault (a reader saw an incomplete file?): %s", o.n, o.id, x.w.clean(o.err))
+				return
 			}
-			return
+			break
 		}
 		v, ok := x.vals[c09Hash(o.got)]
 		if !ok {
